@@ -13,6 +13,7 @@ Sections
   fov         sequences of set_fov / subsample on one object (explicit and automatic spacing): block, affine, npoints
               consistent; self-registration through eval(T) equals the definition; ideal_spacing / slices vs Coq model.
   many-bins   histograms with 257..32767 bins on an axis and mass in the high bins (measures, L1, eval with > 256 bins).
+  nonsquare   all 8 measures on non-square histograms vs textbook (pmi/dpmi with an independent Gaussian filter).
   reuse       every measure (incl. pmi, dpmi, slr) evaluated repeatedly, several measure / registration objects built
               from the same caller arrays: results independent of history, caller arrays unmodified, slr = textbook.
   helpers     clamp, smallest_bounding_box, subgrid_affine / _slicer.
@@ -280,6 +281,24 @@ for k, c in enumerate(cases):
     H2 = np.full((c["cI"], c["cJ"]), -3.0)
     _joint_histogram(H2, I.flat, c["Jp"], c["coords"], c["interp"])
     out.write("done %%d %%s\n" %% (k, json.dumps([[x.hex() for x in H.ravel().tolist()], [x.hex() for x in H2.ravel().tolist()]]))); out.flush()
+    if c.get("layouts"):
+        # every array argument of the raw kernel in C-contiguous, Fortran-ordered and strided form
+        def forms(a):
+            big = np.zeros(tuple(2 * d for d in a.shape), dtype=a.dtype)
+            view = big[tuple(slice(None, None, 2) for _ in a.shape)]
+            view[...] = a
+            return {"C": np.ascontiguousarray(a), "F": np.asfortranarray(a), "strided": view}
+        for arg in ("H", "J", "T"):
+            for lay in ("C", "F", "strided"):
+                Hv = forms(np.full((c["cI"], c["cJ"]), 5.0))[lay if arg == "H" else "C"]
+                Jv = forms(c["Jp"])[lay if arg == "J" else "C"]
+                Tv = forms(c["coords"])[lay if arg == "T" else "C"]
+                try:
+                    _joint_histogram(Hv, I.flat, Jv, Tv, c["interp"])
+                    st = json.dumps([x.hex() for x in np.array(Hv).ravel().tolist()])
+                except Exception as e:
+                    st = json.dumps("raised " + type(e).__name__)
+                out.write("layout %%d %%s-%%s %%s\n" %% (k, arg, lay, st)); out.flush()
 """
 
 
@@ -292,12 +311,16 @@ def run_isolated(ck, cases, name):
     r = subprocess.run(["timeout", "600", sys.executable, "-c", WORKER % str(VERIF), str(cf), str(rf)],
                        capture_output=True, text=True, env=dict(os.environ))
     res = [None] * len(cases)
+    ck.layout_results = {}
     started = -1
     if rf.exists():
         for line in rf.read_text().splitlines():
             parts = line.split(" ", 2)
             if parts[0] == "start":
                 started = int(parts[1])
+            elif parts[0] == "layout" and len(parts) == 3:
+                name, payload = parts[2].split(" ", 1)
+                ck.layout_results.setdefault(int(parts[1]), {})[name] = json.loads(payload)
             elif parts[0] == "done" and len(parts) == 3:
                 k = int(parts[1])
                 c = cases[k]
@@ -344,7 +367,8 @@ def kernel(ck):
                   "clampI": cI, "clampJ": cJ, "seed": seed if mode == "rand" else None,
                   "call": "_joint_histogram(H, I.flat, J_padded, coords, interp)"}
         interp = {"pv": 0, "tri": 1, "rand": -seed}[mode]
-        cases.append({"I": I, "Jp": Jp, "coords": coords, "cI": cI, "cJ": cJ, "interp": interp, "strided": strided})
+        cases.append({"I": I, "Jp": Jp, "coords": coords, "cI": cI, "cJ": cJ, "interp": interp, "strided": strided,
+                      "layouts": info["contrib"] > 0 and n % 4 == 1})
         pending.append((n, mode, kind, replay, Hdef, info, Iflat, cflat, Jp, cI, cJ, draws))
     results, crashed, proc = run_isolated(ck, cases, "kernel")
     ck.kernel_unsafe = crashed is not None
@@ -355,10 +379,25 @@ def kernel(ck):
                 % (proc.returncode, (proc.stderr or "")[-200:].strip()), replay)
     terms, meta = [], []
     nrand = 0
-    for HH, (n, mode, kind, replay, Hdef, info, Iflat, cflat, Jp, cI, cJ, draws) in zip(results, pending):
+    for k_case, (HH, (n, mode, kind, replay, Hdef, info, Iflat, cflat, Jp, cI, cJ, draws)) in enumerate(zip(results, pending)):
         if HH is None:
             continue
         H, Hrep = HH
+        for name, got in sorted(ck.layout_results.get(k_case, {}).items()):
+            arg, lay = name.split("-")
+            ck.count(("layout", n, name), nontrivial=True, bucket="kernel:layout:%s" % name)
+            if isinstance(got, str):
+                if lay == "C":
+                    ck.fail("kernel/layout/refuses-C-contiguous/%s" % arg, "the kernel refused C-contiguous arrays: %s" % got, dict(replay, variant=name))
+                continue
+            Hl = [frac(float.fromhex(x)) for x in got]
+            if Hl != Hdef:
+                kk = next(i for i in range(len(Hl)) if Hl[i] != Hdef[i])
+                ck.fail("kernel/layout-accepted-but-wrong/%s" % name,
+                        "the kernel ACCEPTED a %s array for %s (it documents C-contiguous input only) and returned a histogram that "
+                        "differs from the definition: bin (%d,%d) %s vs %s" % ({"F": "Fortran-ordered", "strided": "strided", "C": "C-contiguous"}[lay],
+                         {"H": "the histogram", "J": "the padded target", "T": "the transformed coordinates"}[arg], kk // cJ, kk % cJ, Hl[kk], Hdef[kk]),
+                        dict(replay, variant=name, layout=lay, argument=arg, H=[str(x) for x in Hl]))
         if not np.array_equal(H, Hrep):
             k = int(np.argmax(H.ravel() != Hrep.ravel()))
             ck.fail("kernel/call-not-repeatable/%s" % mode,
@@ -757,6 +796,90 @@ def textbook_float(name, H):
         nzm = P > 0
         return float((P[nzm] * np.log(P[nzm] / (pJ[:, None] * pI[None, :])[nzm])).sum())
     raise ValueError(name)
+
+
+def gaussian_filter_def(a, sigmas):
+    """scipy.ndimage.gaussian_filter(a, sigma, mode='constant') restated: per axis a correlation with the normalised
+    kernel exp(-x^2 / 2 sigma^2), |x| <= int(4 sigma + 0.5), zeros outside the array."""
+    a = np.asarray(a, dtype=float)
+    for ax, sg in enumerate(sigmas):
+        r = int(4.0 * float(sg) + 0.5)
+        x = np.arange(-r, r + 1, dtype=float)
+        w = np.exp(-0.5 * x * x / (float(sg) ** 2)) if sg > 0 else np.ones(1)
+        w /= w.sum()
+        pad = [(0, 0)] * a.ndim
+        pad[ax] = (r, r)
+        ap = np.pad(a, pad)
+        out = np.zeros_like(a)
+        for k in range(2 * r + 1):
+            sl = [slice(None)] * a.ndim
+            sl[ax] = slice(k, k + a.shape[ax])
+            out += w[k] * ap[tuple(sl)]
+        a = out
+    return a
+
+
+def loglik_ratio(H, Q):
+    """sum H log(Q / (Q_row Q_col)) / sum H over the populated bins"""
+    Q = np.asarray(Q, dtype=float)
+    r, c = Q.sum(1, keepdims=True), Q.sum(0, keepdims=True)
+    m = H > 0
+    return float((H[m] * np.log(Q[m] / (r * c)[m])).sum() / H.sum())
+
+
+def textbook_any(name, H, dist=None):
+    H = np.asarray(H, dtype=float)
+    if name in ("cc", "cr", "crl1", "mi"):
+        return textbook_float(name, H)
+    if name == "nmi":
+        P = H / H.sum()
+        ent = lambda p: -float((p[p > 0] * np.log(p[p > 0])).sum())
+        den = ent(P.sum(0)) + ent(P.sum(1))
+        return None if den < 1e-300 else 2 * (1 - ent(P) / den)
+    if name == "slr":
+        return loglik_ratio(H, dist)
+    sig = 0.05 * np.array(H.shape)          # SIGMA_FACTOR * bins, PER AXIS
+    if name == "pmi":
+        return loglik_ratio(H, gaussian_filter_def(H / H.sum(), sig))
+    if name == "dpmi":
+        Hs = gaussian_filter_def(H, sig)
+        return loglik_ratio(H, Hs / Hs.sum())
+    raise ValueError(name)
+
+
+def nonsquare_measures(ck):
+    """EVERY similarity measure on non-square histograms (from_bins != to_bins, both orders, up to 48 bins so that the
+    Parzen windows differ per axis) against its textbook formula."""
+    from nipy.algorithms.registration import similarity_measures as sm
+    rng = ck.rng("nonsquare")
+    for n in range(ck.n(120, 1200)):
+        a, b = int(rng.integers(1, 13)), int(rng.integers(14, 49))
+        shape = (a, b) if n % 2 else (b, a)
+        H = rng.integers(0, 7, size=shape).astype(float)
+        if n % 3 == 0:
+            H[rng.random(shape) < 0.6] = 0
+        if H.sum() == 0:
+            H[0, 0] = 1
+        q = rng.random(shape) + 0.05
+        q /= q.sum()
+        for name in ALL_SIMS:
+            ck.count(("nonsquare", n, name), nontrivial=True, bucket="measures:nonsquare:%s" % name)
+            replay = {"measure": name, "shape": list(shape), "H": H.tolist(), "dist": q.tolist() if name == "slr" else None}
+            try:
+                v = float(sm.similarity_measures[name](shape, False, q.copy() if name == "slr" else None)(H.copy()))
+            except Exception as e:  # noqa
+                ck.fail("measures/nonsquare-raises/%s" % name, "%s on a %s histogram raised %s: %s" % (name, shape, type(e).__name__, e), replay)
+                continue
+            want = textbook_any(name, H, q)
+            if want is None:
+                continue
+            if not math.isfinite(v) or abs(v - want) > 1e-8 * max(1.0, abs(want)):
+                ck.fail("measures/%s/nonsquare" % name,
+                        "%s on a %dx%d histogram returned %r, textbook value %r" % (name, shape[0], shape[1], v, want),
+                        dict(replay, value=repr(v), textbook=want))
+    ck.section("nonsquare-measures", measures=ALL_SIMS, shapes="(1..12) x (14..48) in both orders")
+    ck.trust.append("scipy.ndimage.gaussian_filter (pmi, dpmi) is an oracle; it is restated independently (truncated normalised "
+                    "Gaussian, radius int(4 sigma + .5), zero padding) and the two are compared on every run")
 
 
 def many_bins(ck):
@@ -1576,6 +1699,7 @@ def run(ck):
     if not getattr(ck, "kernel_unsafe", False):
         many_bins(ck)
     reuse(ck)
+    nonsquare_measures(ck)
     helpers(ck)
     if not getattr(ck, "kernel_unsafe", False):
         optimize(ck)
